@@ -123,6 +123,9 @@ def plain_also_fails(g, var, f, true_chunks):
         return True
 
 
+CUR = {"base": "leaf"}
+
+
 def follow(g, var, nfollow, ctx, problems, phase, label, true_chunks=None):
     """Apply generated ops to `var` (an adopted unknown/resolved array); compare whatever is returned with NumPy."""
     cur = var
@@ -149,7 +152,12 @@ def follow(g, var, nfollow, ctx, problems, phase, label, true_chunks=None):
                 ctx.count("defect_of_the_op_on_this_block_grid_left_to_C01")
                 return
             if phase == "resolved":
-                problems.append(("follow_on_raises_after_resolution", f"{label} [{phase}] {op}: {short_tb(e)}\n  steps: {g.steps[n0:]}", f"resolved:raise:{op}:{type(e).__name__}:{exc_site(e)}:{msg_key(e)}"))
+                mech_ = f"resolved:raise:{op}:{type(e).__name__}:{exc_site(e)}:{msg_key(e)}"
+                if "Dimension_has_blocks" in mech_ and CUR["base"] != "leaf":
+                    # the recorded C01/C08 finding (a consumer that recorded its input's block count over a native
+                    # sliding-window kernel), reached here because the producer's input is such a kernel
+                    mech_ = "resolved:raise:baked_block_count_over_window_base:Dimension_has_blocks"
+                problems.append(("follow_on_raises_after_resolution", f"{label} [{phase}] {op}: {short_tb(e)}\n  steps: {g.steps[n0:]}", mech_))
             return
         ctx.count("follow_on_results_compared")
         ctx.seen((label, op, phase), True)
@@ -183,6 +191,7 @@ def check_case(p, ctx):
 
     problems = []
     label = p["producer"]
+    CUR["base"] = p.get("base", "leaf")
     try:
         y, ev = produce(p, da)
     except NotImplementedError:
